@@ -73,7 +73,7 @@ ASSUMPTIONS = ["front-end stream: a record is its encoded line; the model assume
                "I/O errors of os.* are outside the model; records not yet taken by the writer goroutine at Close are not 'processed'"]
 
 FILES = ["access.log", "access.log", "app", "svc.err.log", "a.b", ".log", "stat.log"]
-DELIMS = ["-", "-", "-", ".", "_", "--", "log"]
+DELIMS = ["-", "-", "-", ".", "_", "--", "log", "+", ",", "#", "--"]
 BASE = datetime.date(2019, 12, 20)
 
 
@@ -399,10 +399,48 @@ def _cleanup_gz(rng, tier):
     return c
 
 
+# Round 8: on the unchanged tree a rotation whose os.Rename fails leaves l.fp nil (rotate closes the file before the
+# rename and returns on the error without reopening): the triggering record and every later one is dropped until
+# ShallRotate is true again (class failed-rotation-drops-record, reported to the coordinator with a one-hunk fix).
+# Turn the stream on once rotate reopens the current file on failure: verified green on 3 seeds with that fix.
+ROTATION_FAULT_STREAM = True
+
+
+def _rotfail(rng, tier):
+    """a rotation that fails once: a non-empty directory sits at the backup name chosen at start-up and is removed a
+    few records later; the rotation is retried with every record and no accepted record may be lost"""
+    c = _one(rng, tier, {"kind": rng.choice(["daily", "size"]), "no_current_seed": rng.random() < 0.5})
+    name = _bname(c["kind"], c["file"], c["delim"], c["now0"])
+    c["seeds"] = [sd for sd in c["seeds"] if sd["name"] != name] + [{"name": name, "recs": [], "gz": 0, "kind": "fulldir"}]
+    widx = [i for i, e in enumerate(c["events"]) if "w" in e]
+    at = widx[min(len(widx) - 1, rng.randint(2, 6))]
+    c["events"].insert(at, {"x": name})
+    return c
+
+
+def _daily_delim(rng, tier):
+    """daily rule with a custom delimiter and retention days, clean-up after every record"""
+    c = _one(rng, tier, {"kind": "daily", "delim": rng.choice(["+", ",", "#", "--"]), "days": rng.choice([1, 2, 3]),
+                         "nw": rng.randint(6, 12)})
+    evs = []
+    for e in c["events"]:
+        if "d" in e:
+            continue
+        evs.append(e)
+        day = datetime.date.fromisoformat(e["w"][2])
+        evs.append({"d": _date(day - datetime.timedelta(days=c["days"]))})
+    c["events"] = evs
+    return c
+
+
 def generate(rng, tier, n):
     out = []
     for i in range(n):
-        if i % 30 == 11:
+        if ROTATION_FAULT_STREAM and i % 30 in (4, 19):
+            out.append(_rotfail(rng, tier))
+        elif i % 30 in (10, 25):
+            out.append(_daily_delim(rng, tier))
+        elif i % 30 == 11:
             out.append(_backlog(rng, tier))
         elif i % 30 in (12, 27):
             out.append(_samesec(rng, tier))
@@ -442,6 +480,13 @@ def _writes(case):
 def classify(case, obs):
     """known-finding classes (see KNOWN_FINDINGS.txt): RotateLogger.Write retains the caller's slice; the plain
     encoding (fmt.Fprint) and NewWriter (log.Logger) hand it pooled buffers that are reused before the worker writes"""
+    if any(sd.get("kind") == "fulldir" for sd in case["seeds"]):
+        # rotate closes l.fp before os.Rename and returns on its error without reopening: write drops the record
+        files = list(obs.get("final", [])) + [f for l in obs.get("log", []) if l.get("d") for f in l["d"]["outs"]]
+        seen = [r[0] for f in files for r in f["runs"]]
+        missing = [w[0] for w in _writes(case) if w[1] > 0 and w[0] not in seen]
+        if missing:
+            return "failed-rotation-drops-record"
     fr = case.get("front")
     if fr and (fr["enc"] == "plain" or fr["wire"] == "new") and all(a[2] == 1 for a in obs.get("accepted", [])):
         files = list(obs.get("final", [])) + [f for l in obs.get("log", []) if l.get("d") for f in l["d"]["outs"]]
@@ -473,6 +518,14 @@ def search(rng, problems):
                     "rot0": "2020-01-06", "now0": "2020-01-06",
                     "events": [{"w": [0, 5, "2020-01-06"]}, {"w": [1, 6, "2020-01-07"]}, {"d": "2020-01-05"}, {"w": [2, 7, "2020-01-08"]}],
                     "endb": "2020-01-06"})
+    out.append({"kind": "daily", "file": "access.log", "delim": "-", "days": 0, "gzip": False, "compress": False,
+                "maxsize": 0, "maxbackups": 0,
+                "seeds": [{"name": "access.log-2020-01-05", "recs": [], "gz": 0, "kind": "fulldir"}],
+                "rot0": "2020-01-05", "now0": "2020-01-05",
+                "events": [{"w": [0, 5, "2020-01-05"]}, {"w": [1, 6, "2020-01-06"]}, {"x": "access.log-2020-01-05"},
+                           {"w": [2, 7, "2020-01-06"]}, {"w": [3, 3, "2020-01-06"]}, {"w": [4, 4, "2020-01-07"]}],
+                "endb": "2020-01-01"})
+    out.extend(_rotfail(rng, "search") for _ in range(6))
     for enc in ("json", "plain"):
         for wire in ("file", "new"):
             out.append({"kind": "daily", "file": "access.log", "delim": "-", "days": 0, "gzip": False, "compress": False,
@@ -490,7 +543,7 @@ def _nm(s):
 def _file(name, recs, gz, kind=""):
     depth = gz if gz >= 0 else 99
     if kind:
-        depth = 77 if kind == "dir" else 78
+        depth = {"dir": 77, "fulldir": 79}.get(kind, 78)
     return cpair(_nm(name), cpair(clist(["mkrec %s %s" % (cnat(r[0]) if r[0] >= 0 else "999%nat", cZ(r[1])) for r in recs]), cnat(depth)))
 
 
@@ -528,7 +581,9 @@ def encode(case, obs):
     evs = []
     restarts = [e["r"] for e in case["events"] if "r" in e]
     for e in obs["log"]:
-        if e.get("g"):
+        if e.get("x"):
+            evs.append("XRemove %s" % _nm(e["x"]))
+        elif e.get("g"):
             evs.append("XGzip")
         elif e.get("r"):
             r = restarts.pop(0)
@@ -599,6 +654,10 @@ def bucket(case, obs):
         out.append("config-path:%s" % case["setup"]["rotation"])
     if case.get("link"):
         out.append("link:" + case["link"])
+    if any(sd.get("kind") == "fulldir" for sd in case["seeds"]):
+        out.append("rotation-fault")
+    if case["kind"] == "daily" and case["delim"] in ("+", ",", "#") and case["days"] > 0:
+        out.append("daily-custom-delim-retention")
     if case.get("holdgz"):
         # largest number of rotated backups waiting for their compress phase at the same time
         waiting = most = 0
